@@ -487,10 +487,6 @@ func (mo *c07Monitor) marker(e *proc.Event) {
 				mo.v("C07:R5:no-dir-fsync-after-rename", "wal-meta.db was renamed into place but the directory was not fsynced before Open returned")
 			}
 			mo.renamePos = 0
-		// metadata writes of a process that is gone are not part of any later acknowledgement
-		if mf := mo.files[dir+"/wal-meta.db"]; mf != nil {
-			mf.unsynced = nil
-		}
 		}
 	case "VFS":
 		if len(f) < 4 {
@@ -622,6 +618,10 @@ func c07Scenario(c *evid.Ctx, seed int64, kills []string, nops int) {
 		mo.offset += res.Lines + 10
 		// R5's directory fsync is demanded of the lifetime that did the rename only
 		mo.renamePos = 0
+		// metadata writes of a process that is gone are not part of any later acknowledgement
+		if mf := mo.files[dir+"/wal-meta.db"]; mf != nil {
+			mf.unsynced = nil
+		}
 		// a killed process's in-flight state: un-synced writes stay un-synced (they are in the page cache)
 	}
 	// R6 totals
